@@ -117,10 +117,11 @@ func TestPrograms(t *testing.T) {
 		p.Body = append(p.Body, &zn.Let{Names: []string{"L"}, E: l0}, &zn.Let{Names: []string{"D"}, E: d0})
 		size := len(l0.Items)
 		muts := 0
+		reads := 0
 		nops := 1 + pick(14, "nops")
 		for i := 0; i < nops; i++ {
 			val := litOf(poolValue(pick(8, "val")))
-			switch pick(17, "op") {
+			switch pick(19, "op") {
 			case 0:
 				p.Body = append(p.Body, show("get", &zn.Index{Root: v("L"), Idx: num(pos(size, "gi"))}))
 			case 1:
@@ -173,6 +174,16 @@ func TestPrograms(t *testing.T) {
 			case 16:
 				p.Body = append(p.Body, &zn.ExprStmt{E: &zn.Assign{Target: &zn.Member{Root: v("L"), Name: []string{"首项", "末项"}[pick(2, "fl")]}, E: val}})
 				muts++
+			case 17, 18:
+				// uses that only READ the collections - comparisons (either side) - leave them as they are: the state shown next is the state before
+				p.Body = append(p.Body, &zn.Let{Names: []string{fmt.Sprintf("旁典%d", i), fmt.Sprintf("另典%d", i)}, E: v("D")},
+					&zn.Let{Names: []string{fmt.Sprintf("旁表%d", i)}, E: v("L")},
+					&zn.ExprStmt{E: &zn.Assign{Target: &zn.Index{Root: v(fmt.Sprintf("另典%d", i)), Idx: &zn.Str{V: dictKeys[pick(len(dictKeys), "ck")]}}, E: val}},
+					show("cmp", &zn.Bin{Op: "==", L: v("D"), R: v(fmt.Sprintf("旁典%d", i))}, &zn.Bin{Op: "/=", L: v("D"), R: v(fmt.Sprintf("另典%d", i))},
+						&zn.Bin{Op: "为", L: v(fmt.Sprintf("另典%d", i)), R: v("D")}, &zn.Bin{Op: "==", L: v("L"), R: v(fmt.Sprintf("旁表%d", i))},
+						&zn.Bin{Op: "==", L: &zn.ListLit{Items: []zn.Expr{v("D")}}, R: &zn.ListLit{Items: []zn.Expr{v(fmt.Sprintf("旁典%d", i))}}}),
+					show("copies", v(fmt.Sprintf("旁典%d", i)), v(fmt.Sprintf("另典%d", i)), v(fmt.Sprintf("旁表%d", i))))
+				reads++
 			}
 			p.Body = append(p.Body, show("state", v("L"), v("D")))
 		}
@@ -189,6 +200,9 @@ func TestPrograms(t *testing.T) {
 			s.ErrWhat = ref.Err.What
 		}
 		labels := []string{"program"}
+		if reads > 0 {
+			labels = append(labels, "read-only-uses-between-changes")
+		}
 		if ref.Err != nil {
 			labels = append(labels, "program-ends-in:"+ref.Err.What)
 		}
